@@ -105,17 +105,30 @@ SHAPES = ['plain', 'args', 'dict', 'nonstr-arg', 'unicode', 'percent-noargs', 'n
 LEVELS = [logging.DEBUG, logging.INFO, logging.WARNING, logging.ERROR, logging.CRITICAL, 5, 25, 1]
 
 
-def emit(logger, level, msg, args):
+# the convenience methods of a logger, by level (warn / fatal are the old aliases plugs written years ago still call)
+NAMED = {logging.DEBUG: ['debug'], logging.INFO: ['info'], logging.WARNING: ['warning', 'warn'], logging.ERROR: ['error'],
+         logging.CRITICAL: ['critical', 'fatal']}
+
+
+def emit(logger, level, msg, args, via=0):
   if level < logging.DEBUG:
     logger.setLevel(1)
+  names = NAMED.get(level) if via else None
+  if names:
+    import warnings  # pylint: disable=g-import-not-at-top
+    with warnings.catch_warnings():
+      warnings.simplefilter('ignore')       # Logger.warn() announces its deprecation
+      getattr(logger, names[(via - 1) % len(names)])(msg, *args)  # EMIT-LINE-NAMED
+    return 'named'
   logger.log(level, msg, *args)  # EMIT-LINE
+  return 'log'
 
 
-def _emit_lineno():
+def _emit_lineno(marker='EMIT-LINE'):
   import inspect  # pylint: disable=g-import-not-at-top
   src, start = inspect.getsourcelines(emit)
   for i, l in enumerate(src):
-    if 'EMIT-LINE' in l:
+    if l.rstrip().endswith('# ' + marker):
       return start + i
   return None
 
@@ -128,7 +141,7 @@ def check_history(case):
   base_logger = logging.getLogger('openhtf')
   base_logger.setLevel(logging.DEBUG)
   baseline = list(base_logger.handlers)
-  lineno = _emit_lineno()
+  linenos = {'log': _emit_lineno(), 'named': _emit_lineno('EMIT-LINE-NAMED')}
   runs = {}      # run idx -> dict(uid, rec, expected[], live, notified)
   flags = {'two_live': False, 'mac': False, 'dictargs': False}
   n = 0
@@ -178,7 +191,7 @@ def check_history(case):
           logging.raiseExceptions = False    # keep "--- Logging error ---" off stderr; emit() swallows either way
           flags['malformed'] = True
         try:
-          emit(logger, op[3], msg, args)
+          how = emit(logger, op[3], msg, args, op[6] if len(op) > 6 else 0)
         except Exception as e:  # pylint: disable=broad-except
           r.bad('C19/log-call-raised/%s/%s' % (op[4], type(e).__name__), 'op %d: logging %r %% %r through %s raised %r (live runs: %d)' % (
               k, msg, args, name, e, len([x for x in runs.values() if x['live']])))
@@ -188,7 +201,7 @@ def check_history(case):
         if text is None:
           continue      # nothing can be recorded for a message that cannot be formatted; the call must just not raise
         for tg in targets:
-          tg['expected'].append({'level': op[3], 'name': name, 'text': redact(text), 'raw': text, 'compare': compare, 'has_mac': has_mac,
+          tg['expected'].append({'how': how, 'level': op[3], 'name': name, 'text': redact(text), 'raw': text, 'compare': compare, 'has_mac': has_mac,
                                  't0': t0, 't1': t1, 'shape': op[4], 'n': n})
   finally:
     for st_ in runs.values():
@@ -224,8 +237,9 @@ def check_history(case):
       g = got[i]
       if g.level != e['level'] or g.logger_name != e['name']:
         r.bad('C19/level-or-name', 'run %d #%d: level %r name %r, expected %r %r' % (ri, e['n'], g.level, g.logger_name, e['level'], e['name']))
+      lineno = linenos[e.get('how', 'log')]
       if g.source != os.path.basename(__file__) or g.lineno != lineno:
-        r.bad('C19/source-location', 'run %d #%d: %s:%s expected %s:%s' % (ri, e['n'], g.source, g.lineno, os.path.basename(__file__), lineno))
+        r.bad('C19/source-location', 'run %d #%d (%s): %s:%s expected %s:%s' % (ri, e['n'], e.get('how'), g.source, g.lineno, os.path.basename(__file__), lineno))
       if not (e['t0'] - 1 <= g.timestamp_millis <= e['t1'] + 1):
         r.bad('C19/timestamp', 'run %d #%d: %r not in [%r, %r]' % (ri, e['n'], g.timestamp_millis, e['t0'], e['t1']))
       if e['compare'] and g.message != e['text']:
@@ -257,7 +271,7 @@ def histories(draw):
     kind = draw(st.sampled_from(['start', 'log', 'log', 'log', 'log', 'log', 'end']))
     if kind == 'log':
       ops.append(['log', draw(st.integers(0, 3)), draw(st.sampled_from(['record', 'phase', 'phase-dots', 'plug', 'deep', 'framework'])),
-                  draw(st.sampled_from(LEVELS)), draw(st.sampled_from(SHAPES)), draw(st.integers(0, 3))])
+                  draw(st.sampled_from(LEVELS)), draw(st.sampled_from(SHAPES)), draw(st.integers(0, 3)), draw(st.sampled_from([0, 0, 1, 2]))])
     else:
       ops.append([kind, draw(st.integers(0, 3))])
   return {'ops': ops}
